@@ -137,4 +137,25 @@ void h_range_union(void) {
 	asn1constraint_range_free(parent);
 }
 
+/* _range_intersection of a two-piece parent (e.g. (1..3 | 8..10)) with a simple range: the pieces left are exactly the common integers */
+void h_range_intersection2(void) {
+	RANGE(p0); RANGE(p1); RANGE(rb); VF_SCALAR(I, x);
+	__CPROVER_assume(SMALL(p0_l_v) && SMALL(p0_r_v) && SMALL(p1_l_v) && SMALL(p1_r_v) && SMALL(rb_l_v) && SMALL(rb_r_v));
+	/* parent pieces as _range_union leaves them: sorted, disjoint, not adjacent */
+	__CPROVER_assume(p0.right.type == ARE_VALUE && p1.left.type == ARE_VALUE && p1.left.value - p0.right.value > 1);
+	asn1cnst_range_t *ra = _range_new(), *e0 = _range_new(), *e1 = _range_new();
+	__CPROVER_assume(ra && e0 && e1);
+	e0->left = p0.left; e0->right = p0.right; e1->left = p1.left; e1->right = p1.right;
+	_range_insert(ra, e0); _range_insert(ra, e1);
+	ra->left = p0.left; ra->right = p1.right;
+	int r = _range_intersection(ra, &rb, 0, 0);
+	VF_CANARY();
+	__CPROVER_assert(r == 0, "C09: intersection succeeds");
+	int i, cnt = 0;
+	for(i = 0; i < 6; i++) if(i < ra->el_count) { if(in_range(ra->elements[i], x)) cnt++; }
+	__CPROVER_assert(ra->el_count <= 4, "C09: at most four pieces");
+	__CPROVER_assert(cnt == (((in_range(&p0, x) || in_range(&p1, x)) && in_range(&rb, x)) ? 1 : 0), "C09: an integer is in (exactly one piece of) the result iff it is in the parent and in the other operand");
+	asn1constraint_range_free(ra);
+}
+
 VF_NATIVE_MAIN
